@@ -204,23 +204,38 @@ theorem findExactField_struct (c : Converter) (sfs : Fields) (name : Str.S) :
   unfold findExactField
   rw [findAllFields_struct]
 
-/-- the settings under which a struct is converted by the bare Struct rule -/
-structure StructPlain (cx : Ctx) (st : GState) : Prop where
+/-- no field setting applies at target `t`: the method has none, or `t` is not the method's `FieldsTarget` -/
+def FieldsOff (cx : Ctx) (t : Ty) : Prop := cx.cfg.fields = [] ∨ (cx.fieldsTarget == t) = false
+
+theorem fieldCfgOf_off {cx : Ctx} {t : Ty} (h : FieldsOff cx t) (n : Str.S) : fieldCfgOf cx t n = {} := by
+  unfold fieldCfgOf
+  rcases h with h | h <;> simp [h]
+
+theorem defined_off {cx : Ctx} {t : Ty} (h : FieldsOff cx t) :
+    (if cx.fieldsTarget == t then cx.cfg.fields.map (·.1) else []) = [] := by
+  rcases h with h | h <;> simp [h]
+
+/-- the settings under which a struct is converted by the bare Struct rule: no field setting applies at any target type of size
+≤ K, and only methods between non-pointer types carry field settings (the overlapping-definitions check looks at the pointer
+variants of a struct pair) -/
+structure StructPlain (cx : Ctx) (st : GState) (K : Nat) : Prop where
   noIgnoreCase : cx.cfg.common.matchIgnoreCase = false
   noIgnoreMissing : cx.cfg.common.ignoreMissing = false
-  fields : cx.cfg.fields = []
+  fields : ∀ t, tySize t ≤ K → FieldsOff cx t
   autoMap : cx.cfg.autoMap = []
   noUpdate : cx.updateTarget = false
-  noRaw : ∀ m ∈ st.methods, m.cfg.rawFieldSettings = []
+  noRaw : ∀ m ∈ st.methods, m.cfg.rawFieldSettings = [] ∨ (isPtrTy m.source = false ∧ isPtrTy m.target = false)
 
-theorem mapField_struct (c : Converter) (cx : Ctx) (st : GState) (sp : StructPlain cx st) (t : Ty) (sfs : Fields) (name : Str.S)
-    (hsf : inFSFields sfs = true) :
+theorem StructPlain.mono {cx : Ctx} {st : GState} {K K' : Nat} (h : K' ≤ K) (sp : StructPlain cx st K) : StructPlain cx st K' :=
+  { sp with fields := fun t ht => sp.fields t (Nat.le_trans ht h) }
+
+theorem mapField_struct (c : Converter) (cx : Ctx) (st : GState) {K : Nat} (sp : StructPlain cx st K) (t : Ty) (hK : tySize t ≤ K)
+    (sfs : Fields) (name : Str.S) (hsf : inFSFields sfs = true) :
     mapField c cx t name (.struct sfs) [] =
       (match fieldTy sfs name with
        | some sty => .ok (some { path := [name], derefs := [false], guarded := false, leafIsPtr := isPtrTy sty, nextSource := sty })
        | none => .error .noMatch) := by
-  have hcfg : fieldCfgOf cx t name = {} := by
-    unfold fieldCfgOf; simp [sp.fields]
+  have hcfg : fieldCfgOf cx t name = {} := fieldCfgOf_off (sp.fields t hK) name
   unfold mapField
   simp only [hcfg]
   cases hf : fieldTy sfs name with
@@ -236,14 +251,15 @@ theorem mapField_struct (c : Converter) (cx : Ctx) (st : GState) (sp : StructPla
 theorem parseAutoMap_nil (c : Converter) (cx : Ctx) (s : Ty) (h : cx.cfg.autoMap = []) : parseAutoMap c cx s = .ok [] := by
   simp [parseAutoMap, h, List.foldlM, pure, Except.pure]
 
-theorem structAssign_plain (c : Converter) (f : Nat) (cx : Ctx) (st : GState) (sp : StructPlain cx st) (isUpdate pp : Bool)
-    (s : Ty) (tfs : Fields) (path : List PathElem) :
+theorem structAssign_plain (c : Converter) (f : Nat) (cx : Ctx) (st : GState) {K : Nat} (sp : StructPlain cx st K) (isUpdate pp : Bool)
+    (s : Ty) (tfs : Fields) (hK : tySize (.struct tfs) ≤ K) (path : List PathElem) :
     structAssign c (f+1) cx isUpdate pp s (.struct tfs) path st =
       (match structFields c f cx isUpdate pp s (.struct tfs) path [] tfs.toList st with
        | .ok (plans, st') => .ok (.structc (FieldPlans.ofList plans) isUpdate, st')
        | .error d => .error d) := by
   unfold structAssign
-  simp [parseAutoMap_nil c cx s sp.autoMap, sp.fields, isStruct, under, bind, StateT.bind, Except.bind, pure, StateT.pure, Except.pure]
+  simp [parseAutoMap_nil c cx s sp.autoMap, defined_off (sp.fields _ hK), isStruct, under, bind, StateT.bind, Except.bind, pure,
+    StateT.pure, Except.pure]
   generalize structFields c f cx isUpdate pp s (Ty.struct tfs) path [] tfs.toList st = r
   rcases r with _ | ⟨_, _⟩ <;> rfl
 
@@ -252,8 +268,8 @@ theorem structFields_nil (c : Converter) (f : Nat) (cx : Ctx) (st : GState) (isU
     structFields c (f+1) cx isUpdate pp s t path extra [] st = .ok ([], st) := by
   unfold structFields; rfl
 
-theorem structFields_cons (c : Converter) (f : Nat) (cx : Ctx) (st : GState) (sp : StructPlain cx st) (pp : Bool)
-    (sfs : Fields) (t : Ty) (path : List PathElem) (fi : FieldInfo) (fty : Ty) (rest : List (FieldInfo × Ty))
+theorem structFields_cons (c : Converter) (f : Nat) (cx : Ctx) (st : GState) {K : Nat} (sp : StructPlain cx st K) (pp : Bool)
+    (sfs : Fields) (t : Ty) (hK : tySize t ≤ K) (path : List PathElem) (fi : FieldInfo) (fty : Ty) (rest : List (FieldInfo × Ty))
     (hsf : inFSFields sfs = true) (hex : fi.exported = true) :
     structFields c (f+1) cx false pp (.struct sfs) t path [] ((fi, fty) :: rest) st =
       (match fieldTy sfs fi.name with
@@ -266,10 +282,9 @@ theorem structFields_cons (c : Converter) (f : Nat) (cx : Ctx) (st : GState) (sp
            | .error d => .error d
            | .ok (more, st2) =>
              .ok (FieldPlan.mapped fi.name [fi.name] [false] false (isPtrTy sty) cv .none :: more, st2)) := by
-  have hcfg : fieldCfgOf cx t fi.name = {} := by
-    unfold fieldCfgOf; simp [sp.fields]
+  have hcfg : fieldCfgOf cx t fi.name = {} := fieldCfgOf_off (sp.fields t hK) fi.name
   conv => lhs; unfold structFields
-  simp only [hcfg, mapField_struct c cx st sp t sfs fi.name hsf]
+  simp only [hcfg, mapField_struct c cx st sp t hK sfs fi.name hsf]
   cases hf : fieldTy sfs fi.name with
   | none =>
     simp [hex, fieldAccessible, fail, bind, StateT.bind, Except.bind, pure, StateT.pure, Except.pure, throw, throwThe, MonadExceptOf.throw, StateT.lift]
@@ -285,9 +300,30 @@ theorem structFields_cons (c : Converter) (f : Nat) (cx : Ctx) (st : GState) (sp
 theorem any_false_of {α : Type} (l : List α) (g : α → Bool) (h : ∀ x ∈ l, g x = false) : l.any g = false := by
   rw [List.any_eq_false]; intro x hx; simp [h x hx]
 
+theorem mem_lookupIndex {ms : List GenMethod} {x : Nat × Ty × Ty × List Ty} (hx : x ∈ lookupIndex ms) :
+    ∃ m, ms[x.1]? = some m ∧ x.2.1 = m.source ∧ x.2.2.1 = m.target := by
+  simp only [lookupIndex, List.mem_map, List.mem_filter] at hx
+  obtain ⟨⟨m, j⟩, ⟨hm, _⟩, rfl⟩ := hx
+  obtain ⟨hlt, he⟩ := List.mem_zipIdx' hm
+  exact ⟨m, by simp [he, List.getElem?_eq_getElem hlt], rfl, rfl⟩
+
+theorem beq_ptr_false {a b : Ty} (h : isPtrTy a = false) : (a == Ty.ptr b) = false := by
+  cases hb : (a == Ty.ptr b) with
+  | false => rfl
+  | true => have := Ty.eq_of_beq' hb; subst this; simp [isPtrTy] at h
+
+macro "overlap_none" hr:ident : tactic => `(tactic|
+  (intro x hx
+   obtain ⟨m, hm, h1, h2⟩ := mem_lookupIndex hx
+   rcases $hr m (List.mem_of_getElem? hm) with h | ⟨hs, ht⟩
+   · simp [hm, h]
+   · simp [hm, h1, h2, beq_ptr_false hs, beq_ptr_false ht]))
+
 theorem noLookup_struct (c : Converter) (f : Nat) (cx : Ctx) (mode : Mode) (pp : Bool) (path : List PathElem) (st : GState)
     (hu : cx.cfg.common.useUnderlying = false) (hsk : cx.cfg.common.skipCopySameType = false)
-    (hc : st.useCtor = false) (sp : StructPlain cx st) (sfs tfs : Fields) :
+    (hc : st.useCtor = false)
+    (hraw : ∀ m ∈ st.methods, m.cfg.rawFieldSettings = [] ∨ (isPtrTy m.source = false ∧ isPtrTy m.target = false))
+    (sfs tfs : Fields) :
     noLookup c (f+1) cx mode pp (.struct sfs) (.struct tfs) path st =
       if mode == .build && sfs.length == 0 && tfs.length == 0 then .ok (.ident, st)
       else structAssign c f cx mode.isUpdate pp (.struct sfs) (.struct tfs) path st := by
@@ -295,25 +331,15 @@ theorem noLookup_struct (c : Converter) (f : Nat) (cx : Ctx) (mode : Mode) (pp :
   simp [isStruct, isPtr, isBasic, isList, isMap, under, isEnumPair, enumMembers, typeMismatch, fail, bind, StateT.bind, Except.bind,
     pure, Except.pure, StateT.pure, get, getThe, MonadStateOf.get, StateT.get, throw, throwThe, MonadExceptOf.throw, StateT.lift, Ty.isNamed,
     withVar, hu, hsk]
-  have hraw := sp.noRaw
   rw [any_false_of (lookupIndex st.methods)]
   rotate_left
-  · intro x _
-    cases hm : st.methods[x.fst]? with
-    | none => simp
-    | some m => simp [hraw m (List.mem_of_getElem? hm)]
+  · overlap_none hraw
   rw [any_false_of (lookupIndex st.methods)]
   rotate_left
-  · intro x _
-    cases hm : st.methods[x.fst]? with
-    | none => simp
-    | some m => simp [hraw m (List.mem_of_getElem? hm)]
+  · overlap_none hraw
   rw [any_false_of (lookupIndex st.methods)]
   rotate_left
-  · intro x _
-    cases hm : st.methods[x.fst]? with
-    | none => simp
-    | some m => simp [hraw m (List.mem_of_getElem? hm)]
+  · overlap_none hraw
   simp only [Bool.false_eq_true, if_false, ite_self, StateT.bind, bind, Except.bind, StateT.pure, pure, Except.pure]
   by_cases h1 : mode = Mode.build ∧ sfs.length = 0 ∧ tfs.length = 0
   · have h1' : (mode = Mode.build ∧ sfs.length = 0) ∧ tfs.length = 0 := ⟨⟨h1.1, h1.2.1⟩, h1.2.2⟩
@@ -471,7 +497,7 @@ theorem frag_struct {ws : Bool} {fs : Fields} (h : frag ws (.struct fs) = true) 
 
 /-- the "plain" situation: no extend function, no declared or generated method with a signature in the fragment of size ≤ N,
 the two opt-in settings off, no pending constructor; with structs, no field settings either -/
-structure Plain (c : Converter) (cx : Ctx) (st : GState) (z : Bool) (ws : Bool) (N : Nat) : Prop where
+structure Plain (c : Converter) (cx : Ctx) (st : GState) (z : Bool) (ws : Bool) (N K : Nat) : Prop where
   extend : c.extend = []
   lookup : ∀ s t, frag ws s = true → frag ws t = true → tySize s + tySize t ≤ N →
     indexGet (lookupIndex st.methods) s t cx.available = .none
@@ -479,11 +505,11 @@ structure Plain (c : Converter) (cx : Ctx) (st : GState) (z : Bool) (ws : Bool) 
   skipCopy : cx.cfg.common.skipCopySameType = false
   zero : cx.cfg.common.useZeroValue = z
   ctor : st.useCtor = false
-  structs : ws = true → StructPlain cx st
+  structs : ws = true → StructPlain cx st K
 
 /-- the fields of a target struct, one after the other: if the recursive calls agree with `genF`, `structFields` is `genFields` -/
-theorem structFields_F (c : Converter) (cx : Ctx) (st : GState) (z : Bool) (sp : StructPlain cx st) (pp : Bool)
-    (sfs : Fields) (t : Ty) (path : List PathElem) (hsf : inFSFields sfs = true) (M : Nat)
+theorem structFields_F (c : Converter) (cx : Ctx) (st : GState) (z : Bool) {K : Nat} (sp : StructPlain cx st K) (pp : Bool)
+    (sfs : Fields) (t : Ty) (hK : tySize t ≤ K) (path : List PathElem) (hsf : inFSFields sfs = true) (M : Nat)
     (hrec : ∀ a b, tySize a < fieldsSize sfs → tySize b ≤ M → inFS a = true → inFS b = true →
       ∀ fuel', 2 * (tySize a + tySize b) ≤ fuel' → ∀ path',
         conv c fuel' cx (.assign false false) false a b path' st = ret (genF z true a b) st) :
@@ -496,7 +522,7 @@ theorem structFields_F (c : Converter) (cx : Ctx) (st : GState) (z : Bool) (sp :
     obtain ⟨g', rfl⟩ : ∃ g', g = g' + 1 := ⟨g - 1, by omega⟩
     simp [inFSFields] at hr
     simp only [fieldsSize] at hM hg
-    rw [Fields.toList, structFields_cons c g' cx st sp pp sfs t path fi ty r.toList hsf hr.1.1, genFields_cons]
+    rw [Fields.toList, structFields_cons c g' cx st sp pp sfs t hK path fi ty r.toList hsf hr.1.1, genFields_cons]
     cases hf : fieldTy sfs fi.name with
     | none => rfl
     | some sty =>
@@ -507,15 +533,16 @@ theorem structFields_F (c : Converter) (cx : Ctx) (st : GState) (z : Bool) (sp :
       | error d => rfl
       | ok cv =>
         simp only [ret]
-        rw [structFields_F c cx st z sp pp sfs t path hsf M hrec r hr.2 (by omega) g' (by omega)]
+        rw [structFields_F c cx st z sp pp sfs t hK path hsf M hrec r hr.2 (by omega) g' (by omega)]
         cases genFields z sfs r <;> rfl
 
 /-- one level of the cascade: if the recursive calls on all smaller pairs agree with `genF`, so does `noLookup` on this pair -/
 theorem noLookup_F (c : Converter) (cx : Ctx) (st : GState) (z : Bool) (ws : Bool)
     (hu : cx.cfg.common.useUnderlying = false) (hsk : cx.cfg.common.skipCopySameType = false)
-    (hz0 : cx.cfg.common.useZeroValue = z) (hc : st.useCtor = false) (hsp : ws = true → StructPlain cx st)
-    (f : Nat) (s t : Ty) (hs : frag ws s = true) (ht : frag ws t = true) (hf : 2 * (tySize s + tySize t) ≤ f + 2)
-    (hrec : ∀ a b, tySize a + tySize b < tySize s + tySize t → frag ws a = true → frag ws b = true →
+    (hz0 : cx.cfg.common.useZeroValue = z) (hc : st.useCtor = false) (K : Nat) (hsp : ws = true → StructPlain cx st K)
+    (f : Nat) (s t : Ty) (hK : tySize t ≤ K) (hs : frag ws s = true) (ht : frag ws t = true)
+    (hf : 2 * (tySize s + tySize t) ≤ f + 2)
+    (hrec : ∀ a b, tySize a + tySize b < tySize s + tySize t → tySize b ≤ tySize t → frag ws a = true → frag ws b = true →
       ∀ fuel', 2 * (tySize a + tySize b) ≤ fuel' → ∀ mode pp path, (ws = true → mode.isUpdate = false) →
         conv c fuel' cx mode pp a b path st = ret (genF z (asgOf mode) a b) st) :
     ∀ mode pp path, (ws = true → mode.isUpdate = false) →
@@ -523,10 +550,10 @@ theorem noLookup_F (c : Converter) (cx : Ctx) (st : GState) (z : Bool) (ws : Boo
   intro mode pp path hmode
   have hs' := frag_inFS hs
   have ht' := frag_inFS ht
-  have hrec' : ∀ a b, tySize a + tySize b < tySize s + tySize t → frag ws a = true → frag ws b = true →
+  have hrec' : ∀ a b, tySize a + tySize b < tySize s + tySize t ∧ tySize b ≤ tySize t → frag ws a = true → frag ws b = true →
       ∀ mode pp path, (ws = true → mode.isUpdate = false) →
         conv c f cx mode pp a b path st = ret (genF z (asgOf mode) a b) st :=
-    fun a b hlt ha hb => hrec a b hlt ha hb f (by omega)
+    fun a b hlt ha hb => hrec a b hlt.1 hlt.2 ha hb f (by omega)
   have hm1 : ws = true → Mode.build.isUpdate = false := fun _ => rfl
   have hm2 : ws = true → (Mode.assign false false).isUpdate = false := fun _ => rfl
   have hm3 : ws = true → (Mode.assign true false).isUpdate = false := fun _ => rfl
@@ -589,7 +616,7 @@ theorem noLookup_F (c : Converter) (cx : Ctx) (st : GState) (z : Bool) (ws : Boo
           rename_i sfs tfs
           obtain ⟨hws, hsf⟩ := frag_struct hs
           have sp := hsp hws
-          rw [noLookup_struct c f cx mode pp path st hu hsk hc sp, genF_struct]
+          rw [noLookup_struct c f cx mode pp path st hu hsk hc sp.noRaw, genF_struct]
           have hcond : (mode == Mode.build && sfs.length == 0 && tfs.length == 0) =
               (!asgNL mode && sfs.length == 0 && tfs.length == 0) := by simp [asgNL]
           rw [hcond]
@@ -599,10 +626,12 @@ theorem noLookup_F (c : Converter) (cx : Ctx) (st : GState) (z : Bool) (ws : Boo
             simp only [Bool.false_eq_true, if_false]
             simp only [tySize] at hf
             obtain ⟨f', rfl⟩ : ∃ f', f = f' + 1 := ⟨f - 1, by omega⟩
-            rw [hmode hws, structAssign_plain c f' cx st sp false pp,
-              structFields_F c cx st z sp pp sfs (.struct tfs) path hsf (fieldsSize tfs)
+            have hKt : tySize (Ty.struct tfs) ≤ K := hK
+            rw [hmode hws, structAssign_plain c f' cx st sp false pp _ tfs hKt,
+              structFields_F c cx st z sp pp sfs (.struct tfs) hKt path hsf (fieldsSize tfs)
                 (fun a b ha hb hia hib fuel' hfu path' =>
-                  hrec a b (by simp only [tySize]; omega) (by rw [hws]; exact hia) (by rw [hws]; exact hib) fuel' hfu
+                  hrec a b (by simp only [tySize]; omega) (by simp only [tySize]; omega) (by rw [hws]; exact hia)
+                    (by rw [hws]; exact hib) fuel' hfu
                     (.assign false false) false path' (fun _ => rfl))
                 tfs ht' (Nat.le_refl _) f' (by omega)]
             cases genFields z sfs tfs <;> rfl
@@ -611,21 +640,21 @@ theorem noLookup_F (c : Converter) (cx : Ctx) (st : GState) (z : Bool) (ws : Boo
         rfl
 
 /-- **`conv` on the fragment is `genF`, at every depth**: with fuel twice the size of the pair -/
-theorem conv_F (c : Converter) (cx : Ctx) (st : GState) (z : Bool) (ws : Bool) (N : Nat) (hp : Plain c cx st z ws N) :
-    ∀ n, n ≤ N → ∀ s t, tySize s + tySize t ≤ n → frag ws s = true → frag ws t = true →
+theorem conv_F (c : Converter) (cx : Ctx) (st : GState) (z : Bool) (ws : Bool) (N K : Nat) (hp : Plain c cx st z ws N K) :
+    ∀ n, n ≤ N → ∀ s t, tySize s + tySize t ≤ n → tySize t ≤ K → frag ws s = true → frag ws t = true →
       ∀ fuel, 2 * (tySize s + tySize t) ≤ fuel → ∀ mode pp path, (ws = true → mode.isUpdate = false) →
       conv c fuel cx mode pp s t path st = ret (genF z (asgOf mode) s t) st := by
   intro n
   induction n with
   | zero => intro _ s t h; have := tySize_pos s; omega
   | succ n ih =>
-    intro hn s t hsz hs ht fuel hf mode pp path hmode
+    intro hn s t hsz hKt hs ht fuel hf mode pp path hmode
     obtain ⟨f, rfl⟩ : ∃ f, fuel = f + 2 := ⟨fuel - 2, by have := tySize_pos s; omega⟩
     rw [conv_step c (f+1) cx mode pp s t path st hp.extend (hp.lookup s t hs ht (by omega)) (frag_inFS hs) (frag_inFS ht)
       hp.skipCopy]
-    exact noLookup_F c cx st z ws hp.underlying hp.skipCopy hp.zero hp.ctor hp.structs f s t hs ht (by omega)
-      (fun a b hlt ha hb fuel' hfu mode' pp' path' hm' =>
-        ih (by omega) a b (by omega) ha hb fuel' (by omega) mode' pp' path' hm')
+    exact noLookup_F c cx st z ws hp.underlying hp.skipCopy hp.zero hp.ctor K hp.structs f s t hKt hs ht (by omega)
+      (fun a b hlt hbt ha hb fuel' hfu mode' pp' path' hm' =>
+        ih (by omega) a b (by omega) (by omega) ha hb fuel' (by omega) mode' pp' path' hm')
       (modeNL mode) pp path (fun h => isUpdate_modeNL (hmode h))
 
 /-! ### `genF` succeeds exactly on the documented rule set -/
@@ -1037,11 +1066,11 @@ theorem lookup_none_of_plain (ws : Bool) (N : Nat) (ms : List GenMethod) (h : pl
 
 /-! ### the statements used by `Gv.Props.C03` -/
 
-theorem plain_of (c : Converter) (cx : Ctx) (st : GState) (z : Bool) (ws : Bool) (N : Nat)
+theorem plain_of (c : Converter) (cx : Ctx) (st : GState) (z : Bool) (ws : Bool) (N K : Nat)
     (hext : c.extend = []) (hms : plainUpTo ws N st.methods = true)
     (hu : cx.cfg.common.useUnderlying = false) (hsk : cx.cfg.common.skipCopySameType = false)
-    (hz : cx.cfg.common.useZeroValue = z) (hc : st.useCtor = false) (hsp : ws = true → StructPlain cx st) :
-    Plain c cx st z ws N :=
+    (hz : cx.cfg.common.useZeroValue = z) (hc : st.useCtor = false) (hsp : ws = true → StructPlain cx st K) :
+    Plain c cx st z ws N K :=
   { extend := hext, lookup := fun s t hs ht hN => lookup_none_of_plain ws N st.methods hms s t hs ht hN cx.available,
     underlying := hu, skipCopy := hsk, zero := hz, ctor := hc, structs := hsp }
 
@@ -1052,8 +1081,8 @@ theorem conv_fragment (c : Converter) (cx : Ctx) (st : GState) (z : Bool) (s t :
     (hu : cx.cfg.common.useUnderlying = false) (hsk : cx.cfg.common.skipCopySameType = false)
     (hz : cx.cfg.common.useZeroValue = z) (hc : st.useCtor = false) :
     conv c fuel cx mode pp s t path st = ret (genF z (asgOf mode) s t) st :=
-  conv_F c cx st z false _ (plain_of c cx st z false _ hext hms hu hsk hz hc (fun h => by cases h)) _ (Nat.le_refl _) s t
-    (Nat.le_refl _) hs ht fuel hfuel mode pp path (fun h => by cases h)
+  conv_F c cx st z false _ _ (plain_of c cx st z false _ (tySize t) hext hms hu hsk hz hc (fun h => by cases h)) _ (Nat.le_refl _) s t
+    (Nat.le_refl _) (Nat.le_refl _) hs ht fuel hfuel mode pp path (fun h => by cases h)
 
 /-- `noLookup` (buildNoLookup, the entry of a method body) on a pair of F-types: only methods with a strictly SMALLER
 F-signature are excluded (the method being built has the signature of the pair itself) -/
@@ -1064,19 +1093,19 @@ theorem noLookup_fragment (c : Converter) (cx : Ctx) (st : GState) (z : Bool) (s
     (hz : cx.cfg.common.useZeroValue = z) (hc : st.useCtor = false) :
     noLookup c fuel cx mode pp s t path st = ret (genF z (asgNL mode) s t) st := by
   obtain ⟨f, rfl⟩ : ∃ f, fuel = f + 1 := ⟨fuel - 1, by have := tySize_pos s; omega⟩
-  have hp := plain_of c cx st z false _ hext hms hu hsk hz hc (fun h => by cases h)
-  exact noLookup_F c cx st z false hu hsk hz hc (fun h => by cases h) f s t hs ht (by omega)
-    (fun a b hlt ha hb fuel' hfu mode' pp' path' hm' =>
-      conv_F c cx st z false _ hp _ (Nat.le_refl _) a b (by omega) ha hb fuel' hfu mode' pp' path' hm') mode pp path
+  have hp := plain_of c cx st z false _ (tySize t) hext hms hu hsk hz hc (fun h => by cases h)
+  exact noLookup_F c cx st z false hu hsk hz hc _ (fun h => by cases h) f s t (Nat.le_refl _) hs ht (by omega)
+    (fun a b hlt hbt ha hb fuel' hfu mode' pp' path' hm' =>
+      conv_F c cx st z false _ _ hp _ (Nat.le_refl _) a b (by omega) hbt ha hb fuel' hfu mode' pp' path' hm') mode pp path
     (fun h => by cases h)
 
 /-- the settings of the bare Struct rule, as decidable conditions -/
 theorem structPlain_of (cx : Ctx) (st : GState)
     (h1 : cx.cfg.common.matchIgnoreCase = false) (h2 : cx.cfg.common.ignoreMissing = false)
     (h3 : cx.cfg.fields = []) (h4 : cx.cfg.autoMap = []) (h5 : cx.updateTarget = false)
-    (h6 : noFieldSettings st.methods = true) : StructPlain cx st :=
-  { noIgnoreCase := h1, noIgnoreMissing := h2, fields := h3, autoMap := h4, noUpdate := h5,
-    noRaw := noFieldSettings_raw st.methods h6 }
+    (h6 : noFieldSettings st.methods = true) {K : Nat} : StructPlain cx st K :=
+  { noIgnoreCase := h1, noIgnoreMissing := h2, fields := fun _ _ => .inl h3, autoMap := h4, noUpdate := h5,
+    noRaw := fun m hm => .inl (noFieldSettings_raw st.methods h6 m hm) }
 
 /-- `conv` on a pair of FS-types (with unnamed structs) is the reference generator, and leaves the state alone -/
 theorem conv_struct_fragment (c : Converter) (cx : Ctx) (st : GState) (z : Bool) (s t : Ty) (path : List PathElem) (fuel : Nat)
@@ -1084,10 +1113,10 @@ theorem conv_struct_fragment (c : Converter) (cx : Ctx) (st : GState) (z : Bool)
     (hmode : mode.isUpdate = false)
     (hext : c.extend = []) (hms : plainMethodsSUpTo (tySize s + tySize t) st.methods = true)
     (hu : cx.cfg.common.useUnderlying = false) (hsk : cx.cfg.common.skipCopySameType = false)
-    (hz : cx.cfg.common.useZeroValue = z) (hc : st.useCtor = false) (sp : StructPlain cx st) :
+    (hz : cx.cfg.common.useZeroValue = z) (hc : st.useCtor = false) (sp : StructPlain cx st (tySize s + tySize t)) :
     conv c fuel cx mode pp s t path st = ret (genF z (asgOf mode) s t) st :=
-  conv_F c cx st z true _ (plain_of c cx st z true _ hext hms hu hsk hz hc (fun _ => sp)) _ (Nat.le_refl _) s t
-    (Nat.le_refl _) hs ht fuel hfuel mode pp path (fun _ => hmode)
+  conv_F c cx st z true _ _ (plain_of c cx st z true _ _ hext hms hu hsk hz hc (fun _ => sp)) _ (Nat.le_refl _) s t
+    (Nat.le_refl _) (by omega) hs ht fuel hfuel mode pp path (fun _ => hmode)
 
 /-- `noLookup` on a pair of FS-types, the entry of a method body -/
 theorem noLookup_struct_fragment (c : Converter) (cx : Ctx) (st : GState) (z : Bool) (s t : Ty) (path : List PathElem) (fuel : Nat)
@@ -1095,13 +1124,13 @@ theorem noLookup_struct_fragment (c : Converter) (cx : Ctx) (st : GState) (z : B
     (hmode : mode.isUpdate = false)
     (hext : c.extend = []) (hms : plainMethodsSUpTo (tySize s + tySize t - 1) st.methods = true)
     (hu : cx.cfg.common.useUnderlying = false) (hsk : cx.cfg.common.skipCopySameType = false)
-    (hz : cx.cfg.common.useZeroValue = z) (hc : st.useCtor = false) (sp : StructPlain cx st) :
+    (hz : cx.cfg.common.useZeroValue = z) (hc : st.useCtor = false) (sp : StructPlain cx st (tySize s + tySize t)) :
     noLookup c fuel cx mode pp s t path st = ret (genF z (asgNL mode) s t) st := by
   obtain ⟨f, rfl⟩ : ∃ f, fuel = f + 1 := ⟨fuel - 1, by have := tySize_pos s; omega⟩
-  have hp := plain_of c cx st z true _ hext hms hu hsk hz hc (fun _ => sp)
-  exact noLookup_F c cx st z true hu hsk hz hc (fun _ => sp) f s t hs ht (by omega)
-    (fun a b hlt ha hb fuel' hfu mode' pp' path' hm' =>
-      conv_F c cx st z true _ hp _ (Nat.le_refl _) a b (by omega) ha hb fuel' hfu mode' pp' path' hm') mode pp path
+  have hp := plain_of c cx st z true _ _ hext hms hu hsk hz hc (fun _ => sp)
+  exact noLookup_F c cx st z true hu hsk hz hc _ (fun _ => sp) f s t (by omega) hs ht (by omega)
+    (fun a b hlt hbt ha hb fuel' hfu mode' pp' path' hm' =>
+      conv_F c cx st z true _ _ hp _ (Nat.le_refl _) a b (by omega) (by omega) ha hb fuel' hfu mode' pp' path' hm') mode pp path
     (fun _ => hmode)
 
 /-! ### one level up: a whole method, and a whole converter with one declared method -/
@@ -1199,7 +1228,7 @@ theorem buildMethod_struct_fragment (c : Converter) (idx : Nat) (av : List Ty) (
   simp [hup, extendIndex_nil c hext, indexGet_nil, get, getThe, MonadStateOf.get, StateT.get, set, StateT.set, pure, StateT.pure, Except.pure,
     bind, StateT.bind, Except.bind, hctor]
   rw [noLookup_struct_fragment c _ { st with seen := [], useCtor := false } z m.source m.target [] f .build false hs ht (by omega)
-    rfl hext hms hu hsk hz rfl (structPlain_of _ _ h1 h2 h3 h4 rfl h6)]
+    rfl hext hms hu hsk hz rfl (structPlain_of _ { st with seen := [], useCtor := false } h1 h2 h3 h4 rfl h6)]
   have ha : asgNL Mode.build = false := rfl
   rw [ha]
   cases genF z false m.source m.target with
